@@ -418,7 +418,9 @@ const prelude = `(declare-sort F64 0)
 (define-fun tmod ((a Int) (b Int)) Int (- a (* b (tdiv a b))))
 (define-fun imax ((a Int) (b Int)) Int (ite (>= a b) a b))
 (define-fun imin ((a Int) (b Int)) Int (ite (<= a b) a b))
-(declare-fun idx (Int Int) Int)
+`
+
+const idxPrelude = `(declare-fun idx (Int Int) Int)
 (assert (forall ((o Int) (k Int)) (! (= (idx o k) (+ o k)) :pattern ((idx o k)))))
 `
 
@@ -468,6 +470,24 @@ func (vc *VC) QueryOpt(o *Obligation, wantModel bool, groundOnly bool) string {
 	var sb strings.Builder
 	sb.WriteString("; " + o.Name + "\n")
 	sb.WriteString(prelude)
+	usesIdx := strings.Contains(o.Goal.S, "(idx ")
+	for _, a := range as {
+		if usesIdx {
+			break
+		}
+		usesIdx = strings.Contains(a.text, "(idx ")
+	}
+	for _, d := range vc.decls {
+		if usesIdx {
+			break
+		}
+		if need[d.name] && strings.Contains(d.text, "(idx ") {
+			usesIdx = true
+		}
+	}
+	if usesIdx {
+		sb.WriteString(idxPrelude)
+	}
 	for _, d := range vc.decls {
 		if need[d.name] {
 			sb.WriteString(d.text)
